@@ -19,7 +19,7 @@ func init() {
 	core.Register(&core.Property{
 		ID:         "C07",
 		Exhaustive: true,
-		Rule:       "exhaustive: every arithmetic/comparison/equality/type/polarity/indexer operator x operand position, and every name of the function table (base + experimental) x every arity Compile accepts x (input | each argument position), with empty supplied as `{}`, an absent element path and an empty %env collection; empty arguments also with receivers of every System / FHIR kind, and through a variable that held a value in the previous evaluation of the same source. Expected: empty input => empty (except documented aggregates); empty single-value argument => empty or error, never a value; `&` treats empty as ''. distinct_nontrivial = distinct (operator-or-function, arity, position, empty-form) programs",
+		Rule:       "exhaustive: every arithmetic/comparison/equality/type/polarity/indexer operator x operand position, and every name of the function table (base + experimental) x every arity Compile accepts x (input | each argument position), with empty supplied as `{}`, an absent element path and an empty %env collection; empty arguments also with receivers of every System / FHIR kind, and through a variable that held a value in the previous evaluation of the same source. Expected: empty input => empty (except documented aggregates); empty single-value argument => empty or error, never a value; `&` treats empty as ''. value-then-empty variables, nil and spare-capacity collections as empty forms, pinned placeholders re-detected at run time; distinct_nontrivial = distinct (operator-or-function, arity, position, empty-form) programs",
 		Assumptions: []string{"unimplemented placeholder functions are excluded (C16 covers them)",
 			"collection-valued / criterion arguments (where, select, all, exists, intersect, exclude, iif) are not 'single value required'",
 			"functions added to the table later are probed with integer arguments"},
